@@ -47,6 +47,38 @@ class Lin:
     __repr__ = key
 
 
+class FrameEnv:
+    """name resolution along the chain of inlined frames of a supergraph: a parameter resolves to the
+    argument expression in the caller's frame (or to its default), a local with a single definition to
+    that definition."""
+
+    def __init__(self, frame, extra=None):
+        self.frame = frame
+        self.extra = extra or {}
+        self._defs = None
+
+    def resolve(self, name):
+        if name in self.extra:
+            return self.extra[name]
+        fr = self.frame
+        if fr is None:
+            return None
+        if name in fr.argmap:
+            expr, efr = fr.argmap[name]
+            return expr, FrameEnv(efr if efr is not None else None)
+        if self._defs is None:
+            self._defs = single_defs(fr.func)
+        if name in self._defs:
+            return self._defs[name], self
+        return None
+
+    def items(self):
+        return []
+
+    def __contains__(self, k):
+        return self.resolve(k) is not None
+
+
 class Normalizer:
     def __init__(self, P, cls):
         self.P, self.cls = P, cls
@@ -70,13 +102,18 @@ class Normalizer:
         return None
 
     def norm(self, e, env=None, depth=0):
-        env = env or {}
+        env = env if env is not None else {}
         if depth > 12:
             return Lin({ast.unparse(e): 1})
         n = lambda x: self.norm(x, env, depth + 1)
         if isinstance(e, ast.Constant) and isinstance(e.value, (int, float)) and not isinstance(e.value, bool):
             return Lin(const=Fraction(e.value).limit_denominator(10**9))
         if isinstance(e, ast.Name):
+            if isinstance(env, FrameEnv):
+                r = env.resolve(e.id)
+                if r is not None:
+                    return self.norm(r[0], r[1], depth + 1)
+                return Lin({e.id: 1})
             if e.id in env:
                 return self.norm(env[e.id], {k: v for k, v in env.items() if k != e.id}, depth + 1)
             return Lin({e.id: 1})
@@ -113,8 +150,11 @@ class Normalizer:
                     params = [a.arg for a in fn.args.args][1:]
                     if len(body) == 1 and isinstance(body[0], ast.Return) and len(params) == len(e.args):
                         # substitute arguments (already normalised in the caller env) into the body
-                        sub = {p: a for p, a in zip(params, e.args)}
-                        inner = {**{k: v for k, v in env.items()}, **sub}
+                        if isinstance(env, FrameEnv):
+                            inner = FrameEnv(None, {p: (a, env) for p, a in zip(params, e.args)})
+                        else:
+                            sub = {p: a for p, a in zip(params, e.args)}
+                            inner = {**{k: v for k, v in env.items()}, **sub}
                         return self.norm(body[0].value, inner, depth + 1)
             return Lin({self.atom(e, env, depth): 1})
         return Lin({self.atom(e, env, depth): 1})
@@ -135,6 +175,9 @@ class Normalizer:
                 return 'self.' + e.attr
             return f'{self.atom(e.value, env, depth)}.{e.attr}'
         if isinstance(e, ast.Name):
+            if isinstance(env, FrameEnv):
+                r = env.resolve(e.id)
+                return self.norm(r[0], r[1], depth + 1).key() if r is not None else e.id
             if e.id in env:
                 return self.norm(env[e.id], {}, depth + 1).key()
             return e.id
